@@ -153,7 +153,7 @@ structure HalfOpen (x : Nat) (va vb : EV) (fab fba : List Msg) : Prop where
     oP.cap = vb.opts.rwnd ∧ oP.threshold = thresholdFor vb.opts va.opts.rwnd ∧
     oP.rxq = [] ∧ oP.buf = [] ∧ oP.recvdSince = 0 ∧ oP.senderAlive = true ∧
     DirRel oP (newObj va.opts x vb.opts.rwnd [] 0) rest [] (vb.wlog j) [] false l ∧
-    vb.rlog j = [] ∧ vb.eof j = false
+    vb.rlog j = [] ∧ vb.eof j = false ∧ (¬ vb.dq → oP.rxOpen = true)
 
 structure Linked (x : Nat) (va vb : EV) (fab fba : List Msg) : Prop where
   ra : ¬ va.inRng
